@@ -43,7 +43,7 @@ ALL_FORMS = ["ndarray", "ndarray_int", "ndarray_bool", "ndarray_f32",
              "list_sparse_csc", "list_sparse_coo", "list_sparse_lil",
              "csr", "csc", "coo",
              "lil", "dok", "bsr", "dia", "csr_unsorted", "csc_unsorted",
-             "coo_dups_free_shuffled"]
+             "coo_dups_free_shuffled", "triples_npint"]
 
 AID = st.sampled_from(["a", "b", "c", "d", "x1", "x10", "x2", "Ω", "o-1",
                        "s.1", "A b", " a", "a ", " b ", "#c"])
@@ -154,6 +154,24 @@ def encode(rows, form):
              if a[i, j] != 0 or (form == "triples_zeros" and (i + j) % 2)]
         if not any(x[0] == n - 1 and x[1] == m - 1 for x in t):
             t.append([n - 1, m - 1, a[n - 1, m - 1]])
+        return t, {}
+    if form == "triples_npint":
+        # one triple per row at most, coordinates as numpy integers (what
+        # np.nonzero / np.argwhere hand out); as many triples as rows when
+        # every row has a non-zero cell
+        t = []
+        for i in range(n):
+            nz = [j for j in range(m) if a[i, j] != 0]
+            if nz:
+                t.append([np.int64(i), np.int64(nz[0]), a[i, nz[0]]])
+                for j in nz[1:]:
+                    if len(t) < n:
+                        t.append([np.int64(i), np.int64(j), a[i, j]])
+        full = [[i, j, a[i, j]] for i in range(n) for j in range(m)
+                if a[i, j] != 0]
+        if len(t) != len(full) or not t:
+            t = [[np.int64(x[0]), np.int64(x[1]), x[2]] for x in full] or \
+                [[np.int64(0), np.int64(0), 0.0]]
         return t, {}
     if form == "triples_min":
         # only the non-zero cells, in row order (the shape comes from the
@@ -589,3 +607,11 @@ def _tall(n):
 
 
 REGRESSIONS += [_tall(1100), _tall(2050)]
+# as many triples as rows, three columns, numpy-integer coordinates
+REGRESSIONS += [{"part": "forms", "dtype": "float",
+                 "rows": [[0.0, 2.0, 0.0], [5.0, 0.0, 0.0]],
+                 "forms": ["ndarray", "triples_npint", "triples_min"],
+                 "md": False},
+                {"part": "forms", "dtype": "float",
+                 "rows": [[0.0, 0.0, 7.0], [0.0, 1.5, 0.0], [2.0, 0.0, 0.0]],
+                 "forms": ["csr", "triples_npint"], "md": False}]
